@@ -10,6 +10,7 @@ Case formats (JSON, self-contained):
     {"k": "type", "p": "atom", "arg": <term>}                     atom(T)
 """
 import itertools
+import math
 import os
 import re
 
@@ -338,6 +339,10 @@ def judge(case):
         v.outcome = obs[0]
         v.unjudged = obs[0]
         return v
+    if obs[0] == "error" and obs[1] == "OccursCheck":
+        v.outcome = "error:OccursCheck"
+        v.unjudged = "OccursCheck raised by the engine's unifier (a ProbLogError; unification is property C14)"
+        return v
     if k == "is":
         ref = R.evaluate(case["e"])
         v.steps = max(1, count_nodes(case["e"]))
@@ -542,7 +547,7 @@ def _size(n):
     magnitude before large, positive before negative"""
     if isinstance(n, int):
         return (0, abs(n), n < 0)
-    return (1 + (n != n or abs(n) == float("inf") or n != int(n)), abs(n), n < 0)
+    return (1 + (n != n or abs(n) == float("inf") or n != int(n)), abs(n), math.copysign(1.0, n) < 0)
 
 
 def _simpler_numbers(n):
@@ -565,6 +570,14 @@ def _simpler_numbers(n):
     return [x for x in c if _size(x) < _size(n)]
 
 
+def _ref_values(tree):
+    ref = R.evaluate(tree)
+    if ref.must_err or ref.anynum:
+        return []
+    return [v for v, _ in ref.vals if not (isinstance(v, float) and (v != v or abs(v) == float("inf")))
+            and not (isinstance(v, int) and v.bit_length() > 200)]
+
+
 def _tree_variants(tree):
     """simpler trees: a child in place of the node; a leaf number moved toward 0/±1"""
     if isinstance(tree, list):
@@ -572,9 +585,8 @@ def _tree_variants(tree):
             yield a
         for i in range(1, len(tree)):
             if isinstance(tree[i], list):
-                single = R.evaluate(tree[i]).single()  # the sub-expression's (unique) reference value
-                if single is not None and not (isinstance(single[0], float) and single[0] != single[0]):
-                    yield tree[:i] + [single[0]] + tree[i + 1:]
+                for val in _ref_values(tree[i]):  # the sub-expression's accepted reference value(s)
+                    yield tree[:i] + [val] + tree[i + 1:]
         for i in range(1, len(tree)):
             for sub in _tree_variants(tree[i]):
                 yield tree[:i] + [sub] + tree[i + 1:]
@@ -589,6 +601,11 @@ def _term_variants(t):
         if "f" in t:
             for a in t["x"]:
                 yield a
+            if t["f"] not in ("f", "-"):
+                yield {"f": "f", "x": t["x"]}
+            if len(t["x"]) > 1:
+                for i in range(len(t["x"]) - 1, -1, -1):
+                    yield {"f": t["f"], "x": t["x"][:i] + t["x"][i + 1:]}
             for i, a in enumerate(t["x"]):
                 for s in _term_variants(a):
                     yield {"f": t["f"], "x": t["x"][:i] + [s] + t["x"][i + 1:]}
@@ -663,9 +680,8 @@ def candidates(case):
                     yield dict(case, a=x, b=y)
         for side in ("a", "b"):
             if isinstance(case[side], list):
-                single = R.evaluate(case[side]).single()  # the operand's (unique) reference value
-                if single is not None and single[0] == single[0]:
-                    yield dict(case, **{side: single[0]})
+                for val in _ref_values(case[side]):  # the operand's accepted reference value(s)
+                    yield dict(case, **{side: val})
             for e in _tree_variants(case[side]):
                 if isinstance(e, (list, int, float)):
                     yield dict(case, **{side: e})
@@ -859,7 +875,8 @@ class C16(Prop):
         "term builtins: an answer or failure where Prolog raises an error is unjudged (not a 'supported mode'); "
         "calls outside the implementation's declared check_mode table may raise any ProbLogError; '.' and '[|]' "
         "are both accepted as list constructor; callable([]), plus/3 on non-integers, atom_number/2 on exotic "
-        "number syntax (1e3, 0x1A, +3, inf, ' 12', 1_0) are unjudged; solutions are compared as multisets",
+        "number syntax (1e3, 0x1A, +3, inf, ' 12', 1_0) are unjudged; solutions are compared as multisets; an "
+        "OccursCheck error raised by the engine's unifier is unjudged here (unification is property C14)",
     ]
     budget = {"quick": 240, "thorough": 1500}
 
